@@ -1,7 +1,7 @@
 (* C14 - Reconnect delays follow the retry strategy: doubling, capped, reset on success.
    Only statements, closed by `exact`, each followed by Print Assumptions. *)
 From Coq Require Import NArith List.
-From Rodbus Require Import Model.Retry Spec.RetrySpec Proofs.RetryProofs Gen.Defaults.
+From Rodbus Require Import Model.Retry Spec.RetrySpec Proofs.RetryProofs Gen.Defaults Model.RetryTask Proofs.RetryTaskProofs.
 Import ListNotations.
 Local Open Scope N_scope.
 
@@ -37,4 +37,62 @@ Print Assumptions C14_default_ok.
 (* non-vacuity: a concrete run *)
 Example C14_nonvacuous : run (create 1000 60000) [Fail; Fail; Disc; Fail; Reset; Fail]
   = Some [Some 1000; Some 2000; Some 1000; Some 4000; None; Some 1000].
+Proof. vm_compute. reflexivity. Qed.
+
+(* ---------------------------------------------------------------------------------------------
+   Task level (Model/RetryTask.v: TCP/TLS client task, serial client task, RTU server task).
+   The theorems hold for every variant, every task state and every event. *)
+
+(* the delay announced to the listener is the delay armed, in the same step, right after it *)
+Theorem C14_task_announced_is_armed : forall v t e t' o k d, tstep v t e = Some (t', o) -> In (OAnnounce k d) o ->
+  (exists pre, o = pre ++ [OAnnounce k d; OArm d]) /\ phase t' = Waiting d.
+Proof. exact announce_then_arm. Qed.
+Print Assumptions C14_task_announced_is_armed.
+
+(* a client task arms no timer it has not announced (the RTU server has no listener) *)
+Theorem C14_task_armed_was_announced : forall v t e t' o d, v <> RtuServer -> tstep v t e = Some (t', o) -> In (OArm d) o ->
+  exists k pre, o = pre ++ [OAnnounce k d; OArm d].
+Proof. exact arm_was_announced. Qed.
+Print Assumptions C14_task_armed_was_announced.
+
+(* while a delay d is pending nothing happens until that timer fires (or the channel is disabled):
+   in particular no connect / open attempt *)
+Theorem C14_task_waiting_is_quiet : forall v t e t' o d, phase t = Waiting d -> tstep v t e = Some (t', o) ->
+  (t' = t /\ o = []) \/
+  (e = Elapsed /\ o = [OElapsed d] /\ phase t' = Idle /\ strat t' = strat t) \/
+  (e = Interrupt /\ o = [ODisabled] /\ phase t' = Idle /\ strat t' = strat t).
+Proof. exact waiting_is_quiet. Qed.
+Print Assumptions C14_task_waiting_is_quiet.
+
+Theorem C14_task_attempt_only_when_idle : forall v t e t' o, tstep v t e = Some (t', o) -> In OAttempt o -> phase t = Idle.
+Proof. exact attempt_only_when_idle. Qed.
+Print Assumptions C14_task_attempt_only_when_idle.
+
+(* reset happens exactly on a successful connect / open, together with the Connected / Open announcement *)
+Theorem C14_task_reset_iff_success : forall v t e t' o, tstep v t e = Some (t', o) ->
+  (In OReset o <-> (phase t = Idle /\ e = AttemptOk)) /\
+  (In OReset o -> o = OAttempt :: on_success v /\ cur (strat t') = dmin (strat t') /\ phase t' = Up).
+Proof. exact reset_iff_success. Qed.
+Print Assumptions C14_task_reset_iff_success.
+
+Theorem C14_task_up_iff_reset : forall v t e t' o, v <> RtuServer -> tstep v t e = Some (t', o) -> (In OUp o <-> In OReset o).
+Proof. exact up_iff_success. Qed.
+Print Assumptions C14_task_up_iff_reset.
+
+(* for all min <= max and ALL event lists the task never panics, the delays it arms are exactly the
+   Spec's delays for the strategy calls the event list amounts to, and (clients) the announced
+   delays are the armed delays *)
+Theorem C14_task : forall v mn mx, mn <= mx -> 2 * mx <= dur_max -> forall evs,
+  exists t' o, trun v (tinit mn mx) evs = Some (t', o) /\
+    armed o = somes (spec mn mx 0 (calls_of KIdle evs)) /\
+    (v <> RtuServer -> announced o = armed o).
+Proof. exact task_delays_from_init. Qed.
+Print Assumptions C14_task.
+
+Example C14_task_nonvacuous :
+  option_map snd (trun TcpClient (tinit 20 70) [AttemptFails; Elapsed; AttemptFails; Elapsed; AttemptOk; Lost; Elapsed; AttemptFails])
+  = Some [OAttempt; OAnnounce AfterFailedConnect 20; OArm 20; OElapsed 20;
+          OAttempt; OAnnounce AfterFailedConnect 40; OArm 40; OElapsed 40;
+          OAttempt; OUp; OReset; OAnnounce AfterDisconnect 20; OArm 20; OElapsed 20;
+          OAttempt; OAnnounce AfterFailedConnect 20; OArm 20].
 Proof. vm_compute. reflexivity. Qed.
